@@ -327,7 +327,17 @@ def _registry(ctx, rng, tmp, loghandler):
     classes = {"file": counting(loghandler.FileHandler), "rot": counting(loghandler.RotatingFileHandler),
                "timed": counting(loghandler.TimedRotatingFileHandler)}
     nseq = 300 if ctx.thorough() else 40
-    for si in range(nseq):
+    # fixed sequences first: several handlers alive when everything is closed / reopened, with and without one dropped or
+    # closed by the application before
+    directed = [
+        ["create:file", "create:file", "create:file", "closeall"],
+        ["create:file", "create:file", "create:file", "create:file", "drop", "closeall"],
+        ["create:file", "create:file", "close", "create:file", "closeall", "reopen"],
+        ["create:file", "create:rot", "create:file", "reopen", "closeall"],
+        ["create:file", "create:file", "closeall", "closeall", "create:file", "closeall"],
+    ]
+    for si in range(len(directed) + nseq):
+        plan = list(directed[si]) if si < len(directed) else None
         loghandler.closeFiles()
         gc.collect()
         del loghandler._reopenable_handlers[:]
@@ -336,10 +346,13 @@ def _registry(ctx, rng, tmp, loghandler):
         kinds = {}
         explicitly_closed = set()
         created = 0
-        for _ in range(rng.randint(2, 6)):
-            k = rng.choice(["create", "create", "reopen", "closeall", "drop", "close"])
+        for _ in range(len(plan) if plan is not None else rng.randint(2, 6)):
+            k = plan.pop(0) if plan is not None else rng.choice(["create", "create", "reopen", "closeall", "drop", "close"])
+            forced_kind = None
+            if k.startswith("create:"):
+                k, forced_kind = "create", k.split(":")[1]
             if k == "create":
-                kind = rng.choice(["file", "rot", "timed"])
+                kind = forced_kind or rng.choice(["file", "rot", "timed"])
                 p = os.path.join(tmp, "r%d_%d.log" % (si, created))
                 if kind == "file":
                     h = classes[kind](p)
